@@ -58,6 +58,10 @@ func Random(r *rand.Rand) *Hello {
 		n = 1
 	case 1:
 		n = 95 + r.Intn(60) // around and above the JA4 cap
+	case 2:
+		if r.Intn(3) == 0 {
+			n = []int{254, 255, 256, 257, 300, 355, 511, 512, 700}[r.Intn(9)] // counts that do not fit into a byte
+		}
 	}
 	greaseDensity := []int{0, 0, 5, 10, 30}[r.Intn(5)]
 	for i := 0; i < n; i++ {
@@ -231,6 +235,8 @@ func Random(r *rand.Rand) *Hello {
 	nu := []int{0, 0, 1, 2, 5}[r.Intn(5)]
 	if r.Intn(25) == 0 {
 		nu = 90 + r.Intn(40) // around and above the JA4 cap
+	} else if r.Intn(60) == 0 {
+		nu = []int{250, 256, 262, 300, 520}[r.Intn(5)] // counts that do not fit into a byte
 	}
 	for k := nu; k > 0; k-- {
 		t := uint16(60 + r.Intn(60000))
